@@ -12,9 +12,19 @@ verus! {
 //@ item actors/paych/src/state.rs State
 //@ item actors/paych/src/state.rs LaneState
 //@ item actors/paych/src/state.rs Merge attr="#[derive(Clone, Copy)]"
-pub struct Signature { pub h: u64 }
+//@ const actors/paych/src/types.rs MAX_SECRET_SIZE
 //@ item actors/paych/src/types.rs ModVerifyParams
 //@ item actors/paych/src/types.rs SignedVoucher
+//@ item actors/paych/src/types.rs UpdateChannelStateParams
+//@ const actors/paych/src/lib.rs ERR_CHANNEL_STATE_UPDATE_AFTER_SETTLED
+//@ include prelude/cbor.rs
+//@ include prelude/paych_method_assumed.rs
+pub mod ext {
+    pub mod account {
+        use super::super::*;
+//@ item actors/paych/src/ext.rs AuthenticateMessageParams
+    }
+}
 
 // derive(Clone, Default) of LaneState re-stated (the extractor strips derives); verified, not assumed
 impl Clone for LaneState {
@@ -159,6 +169,48 @@ pub proof fn distinct_sum_eq_when_distinct(l: Map<u64, LaneState>, ms: Seq<Merge
                 lane_state.nonce == (if l0.dom().contains(sv.lane) { l0[sv.lane].nonce } else { 0 }),
                 lane_state.redeemed@ == redeemed_at(l0, sv.lane),
                 l0.dom().contains(sv.lane) ==> l0[sv.lane].nonce < sv.nonce,
+//@ end
+
+// ---------------- update_channel_state (whole method: the checks that guard the closure) ----------------
+/// the read-only AuthenticateMessage call to `signer` over this voucher's signing bytes that came back `true`
+pub open spec fn authenticated_by(s: SendRec, signer: Address, sv: SignedVoucher) -> bool {
+    &&& s.to == signer && s.method == authenticate_message_method_spec() && s.read_only && s.ok && s.value == 0
+    &&& deser_ok::<bool>(s.ret) && deser_spec::<bool>(s.ret)
+    &&& s.params == Some(IpldBlock { h: auth_params_hash(sv.signature->Some_0.bytes@, signing_bytes_spec(sv)) })
+}
+//@ fn actors/paych/src/lib.rs Actor::update_channel_state free tx0="State;update_tx0;&mut __vx_st, rt, sv" ret=res sub1="ext :: account :: AUTHENTICATE_MESSAGE_METHOD=>authenticate_message_method()" sub3="sig . to_vec ()=>vx_bytes_to_vec(sig)" sub4="hashed_secret != sv . secret_pre_image . as_slice ()=>vx_bytes_ne(hashed_secret, sv.secret_pre_image.as_slice())" sub2="Some (IpldBlock { codec : CBOR , data : extra . data . to_vec () })=>vx_block_of_raw(&extra.data)"
+    requires
+        !old(rt).in_tx@, old(rt).sends@.len() == 0,
+    ensures
+        res.is_ok() ==> ({
+            let st = rt_state::<State>(old(rt).state_id@);
+            let caller = old(rt).msg.caller;
+            let signer = if caller == st.from { st.to } else { st.from };
+            let sv = params.sv;
+            // only a channel party may submit a voucher ...
+            &&& (caller == st.from || caller == st.to)
+            // ... and it must be signed by the OTHER party: the first message sent is a read-only AuthenticateMessage to that party over the
+            // voucher's signing bytes and its signature, and it answered `true`
+            &&& sv.signature.is_some()
+            &&& final(rt).sends@.len() >= 1 && authenticated_by(final(rt).sends@[0], signer, sv)
+            // it names THIS channel
+            &&& rt_resolve(sv.channel_addr, 1).is_some() && old(rt).msg.receiver == (Address { id: rt_resolve(sv.channel_addr, 1)->Some_0, proto: 0 })
+            // it is inside its time lock, and the channel has not reached its settling epoch
+            &&& old(rt).epoch >= sv.time_lock_min && (sv.time_lock_max == 0 || old(rt).epoch <= sv.time_lock_max)
+            &&& (st.settling_at == 0 || old(rt).epoch < st.settling_at)
+            // it carries the right secret
+            &&& (sv.secret_pre_image@.len() > 0 ==> blake2b_spec(params.secret@) == sv.secret_pre_image@)
+            &&& sv.amount@ >= 0
+            // an `extra` verification call, when present, was made and succeeded
+            &&& (sv.extra.is_some() ==> final(rt).sends@.len() == 2 && final(rt).sends@[1].to == sv.extra->Some_0.actor
+                    && final(rt).sends@[1].method == sv.extra->Some_0.method && final(rt).sends@[1].ok && final(rt).sends@[1].value == 0)
+            &&& (sv.extra.is_none() ==> final(rt).sends@.len() == 1)
+        }),
+        /*C11*/ res.is_ok() ==> final(rt).validated@.is_some(),
+        // a rejected voucher changes nothing
+        res.is_err() && params.sv.extra.is_none() ==> final(rt).state_id == old(rt).state_id,
+//@ entry
+        proof { axiom_auth_params_hash(); }
 //@ end
 
 // ---------------- settle (closure) ----------------
